@@ -16,7 +16,7 @@ pub enum Case {
 
 fn gen_limit(t: &mut Tape, max_depth: u8) -> Limit {
     match t.pick(10) {
-        0 | 1 => Limit::MoveTime([1u32, 2, 5, 10, 20, 40][t.pick(6)]),
+        0 | 1 => Limit::MoveTime([0u32, 1, 2, 5, 10, 20, 40][t.pick(7)]),
         2 | 3 => {
             let clock = |t: &mut Tape| -> Option<u32> {
                 match t.pick(8) {
